@@ -2,6 +2,7 @@ package main
 
 import (
 	"fmt"
+	"strconv"
 	"strings"
 )
 
@@ -18,6 +19,7 @@ func init() {
 			"only accepted queries count; alias definitions reference only earlier aliases",
 			"error texts are not compared (aliased and expanded forms legitimately report different positions)",
 			"reference cell: row mode, cache off",
+			"float columns are compared to 11 significant digits: the expression optimizer re-associates constant factors only where it sees literals, so the aliased/expanded (and cached/recomputed) forms may differ in the last bits",
 			"a bare alias used as a select field of its own is not generated (not among the uses the property lists)",
 		},
 		Real: "real: all of kvql from /repo's working tree; simulated: storage engine, caller",
@@ -138,6 +140,54 @@ func (c c05cell) String() string {
 
 var c05cells = []c05cell{{ModeRow, false}, {ModeRow, true}, {ModeBatch, false}, {ModeBatch, true}}
 
+// looseFloats re-renders float columns with 11 significant digits. The aliased
+// and the expanded query (and the cached and the recomputed value of an alias)
+// may legitimately differ in the last bits of a float: the expression
+// optimizer re-associates constant factors — (x * c) * c becomes x * (c * c) —
+// only where it sees literals, and an alias hides them. That is float
+// arithmetic, not a property of aliases or of the cache.
+func looseFloats(rows [][]string) [][]string {
+	out := make([][]string, len(rows))
+	for i, r := range rows {
+		nr := make([]string, len(r))
+		for j, c := range r {
+			nr[j] = looseFloat(c)
+		}
+		out[i] = nr
+	}
+	return out
+}
+
+func looseFloat(c string) string {
+	if !strings.Contains(c, "f:") {
+		return c
+	}
+	if strings.HasPrefix(c, "f:") {
+		if f, err := strconv.ParseFloat(c[2:], 64); err == nil {
+			return "f:" + strconv.FormatFloat(f, 'g', 11, 64)
+		}
+		return c
+	}
+	// floats nested in lists / JSON: rewrite every f:<number> token
+	var sb strings.Builder
+	for i := 0; i < len(c); {
+		if strings.HasPrefix(c[i:], "f:") && (i == 0 || c[i-1] == '[' || c[i-1] == ',' || c[i-1] == ':') {
+			j := i + 2
+			for j < len(c) && (c[j] == '-' || c[j] == '+' || c[j] == '.' || c[j] == 'e' || c[j] == 'E' || (c[j] >= '0' && c[j] <= '9')) {
+				j++
+			}
+			if f, err := strconv.ParseFloat(c[i+2:j], 64); err == nil && j > i+2 {
+				sb.WriteString("f:" + strconv.FormatFloat(f, 'g', 11, 64))
+				i = j
+				continue
+			}
+		}
+		sb.WriteByte(c[i])
+		i++
+	}
+	return sb.String()
+}
+
 func sameResult(a, b *StmtRes, orderCols []int) (bool, string) {
 	af, bf := a.Failed(), b.Failed()
 	if af && bf {
@@ -147,7 +197,7 @@ func sameResult(a, b *StmtRes, orderCols []int) (bool, string) {
 		x, y := a, b
 		return false, fmt.Sprintf("one completes (%d/%d rows) and the other fails: %s%s%s | %s%s%s", len(x.Rows), len(y.Rows), x.BuildErr, oneLine(x.Err, 100), x.Panic, y.BuildErr, oneLine(y.Err, 100), y.Panic)
 	}
-	return equalModuloTies(a.Rows, b.Rows, orderCols)
+	return equalModuloTies(looseFloats(a.Rows), looseFloats(b.Rows), orderCols)
 }
 
 func failSite(r *StmtRes) string {
@@ -309,7 +359,7 @@ func runC05(sc *Scenario, st *Stats) []Violation {
 						continue
 					}
 					checked++
-					if pr.Rows[0][0] != row[j] {
+					if looseFloat(pr.Rows[0][0]) != looseFloat(row[j]) {
 						vs = append(vs, mk("column-differs", fmt.Sprintf("cell %s: row for key %q shows %s in column %d (%s) but `%s` yields %s", c, key, row[j], j, r.Fields[j], pt, pr.Rows[0][0]),
 							fmt.Sprintf("cell=%s", c)))
 						return vs
